@@ -64,7 +64,7 @@ Definition rinfo_of (r : rev) : rinfo := {| ri_name := r_name r; ri_tmpl := r_tm
 
 (* what a round of the full model needs to find (decidable, evaluated on observed worlds by RoundCheck.v):
    the cached set is s0 up to its status, nothing to adopt, every pod claimed, the update revision in place
-   and newest, the claims of the desired ordinals known *)
+   and newest, the claim names of the desired ordinals pairwise different (static, below) *)
 Definition regular (hashes : list ((Z * Z) * string)) (s0 : sset) (upd : rinfo) (cnt : Z) (slots : list Z)
                    (w : world) (cur : rinfo) : Prop :=
   exists st rv rcur rupd coll,
@@ -73,8 +73,7 @@ Definition regular (hashes : list ((Z * Z) * string)) (s0 : sset) (upd : rinfo) 
     /\ nothing_to_adopt w s = true
     /\ forallb (claim_quiet s) (w_pods w) = true /\ claim_value s (w_pods w) = w_pods w
     /\ gsr_value hashes s (sort_revs (lrevs w s)) = Some (rcur, rupd, coll)
-    /\ cur = rinfo_of rcur /\ upd = rinfo_of rupd
-    /\ (forall j, in_range cnt slots j = true -> claims_cached s w j).
+    /\ cur = rinfo_of rcur /\ upd = rinfo_of rupd.
 
 Section Chain.
 Variable hashes : list ((Z * Z) * string).
@@ -89,6 +88,7 @@ Hypothesis Hpause : get_paused (s_pause s0) = false.
 Hypothesis Hsel : s_selector s0 = SelOk.
 Hypothesis Hrep : s_replicas s0 = Some r.
 Hypothesis Hext : extend r (get_slots (s_slots s0)) = (cnt, slots).
+Hypothesis Hnames : NoDup (flat_map (fun j => map (fun t => claim_name t (s_name s0) j) (s_claims s0)) (ordinals_of cnt slots)).
 
 Lemma Huc0 : forall i, use_current s0 i = true -> i < umin_of s0.
 Proof. apply use_current_defaulted. intros _. exact Hroll. Qed.
@@ -106,12 +106,12 @@ Lemma chain_steps : forall k,
 Proof.
   assert (Hone : forall k, wf s0 cnt slots (w_pods (Wd k)) -> NoDup (w_pods (Wd k)) ->
             estep s0 upd cnt slots (curs k) (w_pods (Wd k)) (w_pods (Wd (S k)))).
-  { intros k Wk Nk. destruct (Hreg k) as (st & rv & rcur & rupd & coll & H1 & H2 & H3 & H4 & H5 & H6 & H7 & H8). cbv zeta in *.
+  { intros k Wk Nk. destruct (Hreg k) as (st & rv & rcur & rupd & coll & H1 & H2 & H3 & H4 & H5 & H6 & H7). cbv zeta in *.
     set (s := set_status s0 st rv) in *.
     assert (Hucs : forall i, use_current s i = true -> i < umin_of s).
     { intros i Hi. unfold s in Hi. rewrite (use_current_status s0 st rv Hroll) in Hi. apply Huc0. exact Hi. }
     pose proof (lift_round s upd cnt slots Hcnt Hdel Hclaims Hucs (curs k) hashes (Wd k) rcur rupd coll r
-                  H1 Hpause Hsel H2 H3 H4 H5 H6 H7 Hrep Hext (proj1 (wf_status s0 st rv cnt slots _) Wk) Nk H8) as [L1 L2].
+                  H1 Hpause Hsel H2 H3 H4 H5 H6 H7 Hrep Hext (proj1 (wf_status s0 st rv cnt slots _) Wk) Nk Hnames) as [L1 L2].
     rewrite Hstep. unfold estep. split; [exact L1|].
     unfold s in L2. rewrite (round_status s0 st rv Hroll) in L2. exact L2. }
   induction k as [|k (Wk & Nk & Ek)].
@@ -173,6 +173,7 @@ Hypothesis Hpause : get_paused (s_pause s0) = false.
 Hypothesis Hsel : s_selector s0 = SelOk.
 Hypothesis Hrep : s_replicas s0 = Some r.
 Hypothesis Hext : extend r (get_slots (s_slots s0)) = (cnt, slots).
+Hypothesis Hnames : NoDup (flat_map (fun j => map (fun t => claim_name t (s_name s0) j) (s_claims s0)) (ordinals_of cnt slots)).
 
 Lemma all_claimed_round cur pods pods' :
   wf s0 cnt slots pods -> all_claimed s0 pods ->
@@ -252,16 +253,14 @@ Hypothesis Hset0 : exists st rv, w_set (Wd O) = Some (set_status s0 st rv).
 Hypothesis W0 : wf s0 cnt slots (w_pods (Wd O)).
 Hypothesis N0 : NoDup (w_pods (Wd O)).
 Hypothesis C0 : all_claimed s0 (w_pods (Wd O)).
-Hypothesis K0 : forall j, in_range cnt slots j = true -> claims_cached s0 (Wd O) j.
 
 Definition inv (k : nat) : Prop :=
   (exists st rv, w_set (Wd k) = Some (set_status s0 st rv))
-  /\ wf s0 cnt slots (w_pods (Wd k)) /\ NoDup (w_pods (Wd k)) /\ all_claimed s0 (w_pods (Wd k))
-  /\ (forall j, in_range cnt slots j = true -> claims_cached s0 (Wd k) j).
+  /\ wf s0 cnt slots (w_pods (Wd k)) /\ NoDup (w_pods (Wd k)) /\ all_claimed s0 (w_pods (Wd k)).
 
 Lemma inv_regular k : inv k -> regular hashes s0 upd cnt slots (Wd k) (curs k).
 Proof.
-  intros ((st & rv & Hs) & Wk & Nk & Ck & Kk).
+  intros ((st & rv & Hs) & Wk & Nk & Ck).
   destruct (Hrev k _ Hs) as (Ha & rcur & rupd & coll & Hg & Hc & Hu).
   destruct (all_claimed_quiet (set_status s0 st rv) _ Ck) as [Q1 Q2].
   exists st, rv, rcur, rupd, coll. cbv zeta. repeat split; try assumption.
@@ -270,20 +269,18 @@ Qed.
 Lemma inv_all : forall k, inv k.
 Proof.
   induction k as [|k IH].
-  - split; [exact Hset0|]. split; [exact W0|]. split; [exact N0|]. split; [exact C0 | exact K0].
-  - pose proof (inv_regular k IH) as Rk. destruct IH as ((st & rv & Hs) & Wk & Nk & Ck & Kk).
-    destruct Rk as (st1 & rv1 & rcur & rupd & coll & H1 & H2 & H3 & H4 & H5 & H6 & H7 & H8). cbv zeta in *.
+  - split; [exact Hset0|]. split; [exact W0|]. split; [exact N0 | exact C0].
+  - pose proof (inv_regular k IH) as Rk. destruct IH as ((st & rv & Hs) & Wk & Nk & Ck).
+    destruct Rk as (st1 & rv1 & rcur & rupd & coll & H1 & H2 & H3 & H4 & H5 & H6 & H7). cbv zeta in *.
     set (s := set_status s0 st1 rv1) in *.
     assert (Hucs : forall i, use_current s i = true -> i < umin_of s).
     { intros i Hi. unfold s in Hi. rewrite (use_current_status s0 st1 rv1 Hroll) in Hi. apply (Huc0 s0 Hroll). exact Hi. }
     pose proof (lift_round s upd cnt slots Hcnt Hdel Hclaims Hucs (curs k) hashes (Wd k) rcur rupd coll r
-                  H1 Hpause Hsel H2 H3 H4 H5 H6 H7 Hrep Hext (proj1 (wf_status s0 st1 rv1 cnt slots _) Wk) Nk H8) as [L1 L2].
+                  H1 Hpause Hsel H2 H3 H4 H5 H6 H7 Hrep Hext (proj1 (wf_status s0 st1 rv1 cnt slots _) Wk) Nk Hnames) as [L1 L2].
     unfold s in L2. rewrite (round_status s0 st1 rv1 Hroll) in L2. rewrite <- Hstep in L1, L2.
     split; [rewrite Hstep; apply (env_round_set _ st rv Hs)|].
     split; [apply (wf_members s0 cnt slots (round s0 upd cnt slots (curs k) (w_pods (Wd k)))); [apply (round_wf s0 upd cnt slots Hcnt Hclaims (Huc0 s0 Hroll)); exact Wk | exact L2]|].
-    split; [exact L1|]. split; [apply (all_claimed_round (curs k) (w_pods (Wd k))); assumption|].
-    intros j R t Ht. specialize (Kk j R t Ht). unfold smemb in *. apply existsb_exists in Kk. destruct Kk as (x & Hx & Ex).
-    apply existsb_exists. exists x. split; [|exact Ex]. rewrite Hstep. apply env_round_claims. exact Hx.
+    split; [exact L1|]. apply (all_claimed_round (curs k) (w_pods (Wd k))); assumption.
 Qed.
 
 (* C02 over the full model, with the per-round hypothesis reduced to the revision phase *)
@@ -293,7 +290,7 @@ Theorem full_model_converges_rev_quiet :
          pods_converged s0 upd cnt slots (w_pods (Wd m)) /\ same_members (w_pods (Wd m)) (w_pods (Wd k))
          /\ forall cur, plan_acts s0 cur upd cnt slots (w_pods (Wd m)) = [].
 Proof.
-  apply (full_model_rounds_converge hashes s0 upd cnt r slots Hcnt Hdel Hclaims Hroll Hpause Hsel Hrep Hext Wd curs Hstep);
+  apply (full_model_rounds_converge hashes s0 upd cnt r slots Hcnt Hdel Hclaims Hroll Hpause Hsel Hrep Hext Hnames Wd curs Hstep);
     [intros k; apply inv_regular; apply inv_all | exact W0 | exact N0].
 Qed.
 
